@@ -246,7 +246,7 @@ pub fn run(env: &Env) -> i32 {
     });
 
     // random deeper paths
-    rep.campaign("random-deep", env.cases(60_000, 2_000_000), (4, 40), |case| {
+    rep.campaign("random-deep", env.cases(300_000, 4_000_000), (4, 40), |case| {
         let mut gen_path = |case: &mut Case| -> Vec<&'static str> {
             let len = case.ch.range(1, 12);
             let mut p: Vec<&'static str> = vec![];
